@@ -186,6 +186,30 @@ def fresh_trace(prop, tier, case):
         return None
 
 
+def _has_exact(obj):
+    if isinstance(obj, dict):
+        return any((k == "numtype" and v == "frac") or _has_exact(v) for k, v in obj.items())
+    if isinstance(obj, list):
+        return any(_has_exact(v) for v in obj)
+    return False
+
+
+def maybe_mixed(case, rng):
+    """checks that opt in (MIXED_INTS = True: the operation is documented / written to keep exact results when knots are
+    Python ints): one exact case in eight is run with Python ints for its integral numbers (flag stored in the case, so
+    replays, the fresh-interpreter trace and the minimiser see the same input)"""
+    if isinstance(case, dict) and not case.get("enumerated") and _has_exact(case):
+        if os.environ.get("VERIF_MIXED") == "1" or rng.random() < 0.125:
+            case["mixed_ints"] = True
+    return case
+
+
+def setup_case(case):
+    from . import lib
+
+    lib.MIXED = bool(isinstance(case, dict) and case.get("mixed_ints"))
+
+
 class CaseTimeout(BaseException):
     """wall-clock backstop for one case (exact arithmetic can blow up): the case is abandoned and counted, never a verdict"""
 
@@ -198,8 +222,12 @@ def run_one(mod, case, prop, tier, S, allow_trace=True):
     """run one case under the monitors; returns (ctx, internal_error or None)"""
     from . import attach
 
+    setup_case(None)
     primed = prime(mod, case, prop, tier)
+    setup_case(case)
     ctx = Ctx(prop, tier)
+    if case.get("mixed_ints") if isinstance(case, dict) else False:
+        ctx.count("mixed_int_fraction_cases")
     if primed:
         ctx.count("primed_by_float_twin")
     every = getattr(mod, "TRACE_EVERY", 23)
@@ -289,6 +317,8 @@ def main(argv):
             continue
         if case is None:
             continue
+        if getattr(mod, "MIXED_INTS", False) or os.environ.get("VERIF_MIXED") == "1":  # the env var is for exploration only
+            case = maybe_mixed(case, rng)
         ctx, err = run_one(mod, case, prop, tier, S)
         rep["evaluations"] += 1
         rep["counters"].update(ctx.counters)
